@@ -4,11 +4,119 @@ Property theorems only (helper lemmas live in Lemmas/).
 -/
 import VaxisModel.Model.ImageFit
 import VaxisModel.Spec.Images
+import VaxisModel.Lemmas.ImageFit
 
 namespace VaxisModel.Props.C20
-open VaxisModel.Model.ImageFit VaxisModel.Spec.Images VaxisModel.Gen.ImageConsts
+open VaxisModel.Model.ImageFit VaxisModel.Spec.Images VaxisModel.Gen.ImageConsts VaxisModel.Lemmas.ImageFit
 
-/-- The cell counts are rounded up in the source (regenerated fact). -/
-theorem cells_round_up : columnsRoundUp = true ∧ linesRoundUp = true := by decide
+/-! ## resizeImage -/
+
+/-- The configuration regenerated from image.go (cell counts rounded up, early return on
+    `columns <= w && lines <= h`, arms `sfX <= sfY ⇒ sfX`, `sfX > sfY ⇒ sfY`) — re-checked against the
+    source on every run; everything below is proved for this configuration. -/
+theorem source_shape : genCfg = stdCfg := by decide
+
+/-- **Fit.** For every image of positive size, every box, every positive cell geometry and every
+    float step meeting the error hypothesis, the resized image occupies at most `w × h` cells. -/
+theorem fit : FitStatement genCfg := by
+  rw [source_shape]
+  intro F hF wPix hPix w h cellW cellH pw ph hw hh hcw hch hr
+  obtain ⟨hc, hl, hcols, hlines, hcase⟩ := std_cases F hF wPix hPix w h cellW cellH pw ph hw hh hcw hch hr
+  unfold FitsBox
+  rw [ceilDiv_le_iff _ _ _ hcw, ceilDiv_le_iff _ _ _ hch]
+  rcases hcase with ⟨h1, h2, rfl, rfl⟩ | ⟨_, hlt, hpw, _, hph, _⟩ | ⟨_, hle, hpw, _, hph, _⟩
+  · exact ⟨Nat.le_trans hcols (Nat.mul_le_mul_right _ h1), Nat.le_trans hlines (Nat.mul_le_mul_right _ h2)⟩
+  · constructor
+    · -- width via the cross inequality h·columns < w·lines
+      exact scaled_cross_le pw h _ wPix cellW _ w hl hpw hcols (Nat.le_of_lt hlt)
+    · exact scaled_le ph h _ hPix cellH h hl hph hlines (Nat.le_refl _)
+  · constructor
+    · exact scaled_le pw w _ wPix cellW w hc hpw hcols (Nat.le_refl _)
+    · exact scaled_cross_le ph w _ hPix cellH _ h hc hph hlines hle
+
+example : resizeDims exactOps 64 128 4 4 8 16 = .ok (32, 64) := by rfl
+example : FitsBox 32 64 4 4 8 16 := by decide
+
+/-- **No upscaling.** The result is never larger than the source in either pixel dimension. -/
+theorem no_upscale : NoUpscaleStatement genCfg := by
+  rw [source_shape]
+  intro F hF wPix hPix w h cellW cellH pw ph hw hh hcw hch hr
+  obtain ⟨hc, hl, hcols, hlines, hcase⟩ := std_cases F hF wPix hPix w h cellW cellH pw ph hw hh hcw hch hr
+  unfold NoUpscale
+  rcases hcase with ⟨_, _, rfl, rfl⟩ | ⟨hnf, hlt, hpw, _, hph, _⟩ | ⟨hnf, hle, hpw, _, hph, _⟩
+  · exact ⟨Nat.le_refl _, Nat.le_refl _⟩
+  · -- sfY < sfX: then lines > h (otherwise columns ≤ w too), so the factor h/lines is < 1
+    have hlh : h ≤ upDiv hPix cellH := by
+      rcases Nat.lt_or_ge (upDiv hPix cellH) h with hlt' | hge
+      · exfalso
+        apply hnf
+        refine ⟨?_, Nat.le_of_lt hlt'⟩
+        -- h·columns < w·lines ≤ w·h  ⇒ columns < w
+        have h1 : h * upDiv wPix cellW < w * h :=
+          Nat.lt_of_lt_of_le hlt (Nat.mul_le_mul_left w (Nat.le_of_lt hlt'))
+        rw [Nat.mul_comm w h] at h1
+        exact Nat.le_of_lt (Nat.lt_of_mul_lt_mul_left h1)
+      · exact hge
+    constructor
+    · apply Nat.le_of_mul_le_mul_right _ hl
+      exact Nat.le_trans hpw (by rw [Nat.mul_comm wPix]; exact Nat.mul_le_mul_right _ hlh)
+    · apply Nat.le_of_mul_le_mul_right _ hl
+      exact Nat.le_trans hph (by rw [Nat.mul_comm hPix]; exact Nat.mul_le_mul_right _ hlh)
+  · have hwc : w ≤ upDiv wPix cellW := by
+      rcases Nat.lt_or_ge (upDiv wPix cellW) w with hlt' | hge
+      · exfalso
+        apply hnf
+        refine ⟨Nat.le_of_lt hlt', ?_⟩
+        -- w·lines ≤ h·columns < h·w ⇒ lines < h … (columns < w)
+        have h1 : w * upDiv hPix cellH < h * w :=
+          Nat.lt_of_le_of_lt hle (Nat.mul_lt_mul_of_pos_left hlt' (by
+            rcases Nat.eq_zero_or_pos h with h0 | hp
+            · subst h0
+              have h0' : w * upDiv hPix cellH = 0 := by simpa using hle
+              rcases Nat.mul_eq_zero.mp h0' with h1 | h1 <;> omega
+            · exact hp))
+        rw [Nat.mul_comm h w] at h1
+        exact Nat.le_of_lt (Nat.lt_of_mul_lt_mul_left h1)
+      · exact hge
+    constructor
+    · apply Nat.le_of_mul_le_mul_right _ hc
+      exact Nat.le_trans hpw (by rw [Nat.mul_comm wPix]; exact Nat.mul_le_mul_right _ hwc)
+    · apply Nat.le_of_mul_le_mul_right _ hc
+      exact Nat.le_trans hph (by rw [Nat.mul_comm hPix]; exact Nat.mul_le_mul_right _ hwc)
+
+example : NoUpscale 32 64 64 128 := by decide
+
+/-- **Aspect.** `|pw·hPix − ph·wPix| ≤ max wPix hPix`: both dimensions are scaled by the same factor
+    and each is within one pixel of the exact value, so the aspect ratio is kept to within one pixel
+    (hence within one cell). -/
+theorem aspect : AspectStatement genCfg := by
+  rw [source_shape]
+  intro F hF wPix hPix w h cellW cellH pw ph hw hh hcw hch hr
+  obtain ⟨hc, hl, _, _, hcase⟩ := std_cases F hF wPix hPix w h cellW cellH pw ph hw hh hcw hch hr
+  unfold AspectKept
+  rcases hcase with ⟨_, _, rfl, rfl⟩ | ⟨_, _, hpw, hpw', hph, hph'⟩ | ⟨_, _, hpw, hpw', hph, hph'⟩
+  · constructor <;> rw [Nat.mul_comm] <;> exact Nat.le_add_right _ _
+  · have h1 := aspect_core pw ph h _ wPix hPix hl hpw hph'
+    have h2 := aspect_core ph pw h _ hPix wPix hl hph hpw'
+    have := Nat.le_max_left wPix hPix
+    have := Nat.le_max_right wPix hPix
+    constructor <;> omega
+  · have h1 := aspect_core pw ph w _ wPix hPix hc hpw hph'
+    have h2 := aspect_core ph pw w _ hPix wPix hc hph hpw'
+    have := Nat.le_max_left wPix hPix
+    have := Nat.le_max_right wPix hPix
+    constructor <;> omega
+
+example : AspectKept 32 64 64 128 := by decide
+/-- a case where rounding makes the two products differ: 10×7 px into 3×3 cells of 1×2 px. -/
+example : resizeDims exactOps 10 7 3 3 1 2 = .ok (3, 2) := by rfl
+example : AspectKept 3 2 10 7 := by decide
+
+/-- **No panic** for positive cell geometry (division by zero is the only panic of the model; the
+    excluded point is F52). -/
+theorem no_panic : NoPanicStatement genCfg := by
+  rw [source_shape]
+  intro F wPix hPix w h cellW cellH hcw hch
+  exact ⟨_, resizeDimsWith_std F wPix hPix w h cellW cellH hcw hch⟩
 
 end VaxisModel.Props.C20
